@@ -54,8 +54,8 @@ def dump(int start=0):
 # template kind -> which Python-level kinds of function can carry it
 DEF_TEMPLATES = ['plain', 'raise_cond', 'raise_always', 'catch', 'propagate', 'finally', 'ret_in_try_finally', 'with',
                  'ret_in_with', 'loop', 'early_ret_loop', 'rec', 'gen_for', 'gen_interleave', 'gen_close', 'gen_throw',
-                 'gen_abandon', 'coro_drive', 'pycallback', 'finally_raises_after_return', 'nested_try', 'call_nogil',
-                 'ret_in_finally_override']
+                 'gen_abandon', 'coro_drive', 'pycallback', 'ret_in_try_finally_raises', 'nested_try', 'call_nogil',
+                 'ret_in_try_finally_override']
 CDEF_TEMPLATES = ['plain', 'raise_cond', 'catch', 'finally', 'loop', 'rec', 'ret_in_try_finally', 'propagate']
 GEN_TEMPLATES = ['gen_plain', 'gen_finally', 'gen_catch', 'gen_nested']
 CORO_TEMPLATES = ['coro_plain', 'coro_suspend', 'coro_raise']
@@ -84,6 +84,7 @@ class ModuleGen:
         self.py_fns = []
         self.aux = []       # (name hint, fid) for methods of helper classes
         self.extra_classes = []
+        self.referenced = set()
 
     def site(self, owner):
         self.nsite += 1
@@ -115,7 +116,12 @@ class ModuleGen:
     def callee(self, fn, want=('def', 'cdef', 'cpdef', 'cdef_noexcept')):
         """a function with a larger index of one of the wanted kinds (None if there is none)"""
         c = [g for g in self.fns if g.fid > fn.fid and g.kind in want]
-        return self.rng.choice(c) if c else None
+        if not c:
+            return None
+        fresh = [g for g in c if g.fid not in self.referenced]
+        g = self.rng.choice(fresh or c)
+        self.referenced.add(g.fid)
+        return g
 
     def call(self, fn, ind, want=('def', 'cdef', 'cpdef', 'cdef_noexcept'), assign=None):
         """lines for one guarded call of a later function"""
@@ -165,10 +171,10 @@ class ModuleGen:
             L += [I + 'try:', I * 2 + 'mark(5, %d, 0)' % F,
                   I * 2 + ('return %s(%d, d - 1) if d > 0 else 0' % (g.name, s) if g is not None else 'return 0'),
                   I + 'finally:'] + c(I * 2)
-        elif t == 'finally_raises_after_return':
+        elif t == 'ret_in_try_finally_raises':
             L += [I + 'try:', I * 2 + 'mark(5, %d, 0)' % F, I * 2 + 'return d', I + 'finally:'] + c(I * 2)
             L += [I * 2 + 'if d % 2 == 0:', I * 3 + 'mark(2, %d, 0)' % F, I * 3 + "raise ValueError('f%d')" % F]
-        elif t == 'ret_in_finally_override':
+        elif t == 'ret_in_try_finally_override':
             L += [I + 'try:'] + c(I * 2) + [I * 2 + 'mark(5, %d, 0)' % F, I * 2 + 'return 1', I + 'finally:'] + c(I * 2)
             L += [I * 2 + 'if d % 2 == 1:', I * 3 + 'mark(5, %d, 1)' % F, I * 3 + 'return 2']
         elif t == 'nested_try':
@@ -195,11 +201,12 @@ class ModuleGen:
             s = self.site(F)
             L += [I + 'if d > 0:', I * 2 + '%s(%d, d - 1)' % (fn.name, s)] + c() + [I + 'return 9']
         elif t == 'call_nogil':
-            g = self.callee(fn, ('nogil',))
-            if g is not None:
-                s = self.site(F)
-                L.insert(0, I + 'cdef int rr = 0')
-                L += [I + 'if d > 0:', I * 2 + 'with nogil:', I * 3 + 'rr = %s(%d, d - 1)' % (g.name, s)]
+            L.insert(0, I + 'cdef int rr = 0')
+            for _ in range(2):
+                g = self.callee(fn, ('nogil',))
+                if g is not None:
+                    s = self.site(F)
+                    L += [I + 'if d > 0:', I * 2 + 'with nogil:', I * 3 + 'rr = %s(%d, d - 1)' % (g.name, s)]
             L += c() + [I + 'return 10']
         elif t == 'gen_for':
             g = self.callee(fn, ('gen',))
@@ -231,11 +238,12 @@ class ModuleGen:
                 L += c(I * 2)
             L += [I + 'return 13']
         elif t == 'coro_drive':
-            g = self.callee(fn, ('coro',))
-            if g is not None:
-                s = self.site(F)
-                L += [I + 'if d > 0:', I * 2 + 'co = %s(%d, d - 1)' % (g.name, s), I * 2 + 'try:', I * 3 + 'while True:',
-                      I * 4 + 'co.send(None)'] + c(I * 4) + [I * 2 + 'except (StopIteration, ValueError):', I * 3 + 'pass']
+            for _ in range(3):
+                g = self.callee(fn, ('coro',))
+                if g is not None:
+                    s = self.site(F)
+                    L += [I + 'if d > 0:', I * 2 + 'co = %s(%d, d - 1)' % (g.name, s), I * 2 + 'try:', I * 3 + 'while True:',
+                          I * 4 + 'co.send(None)'] + c(I * 4) + [I * 2 + 'except (StopIteration, ValueError, KeyError):', I * 3 + 'pass']
             L += [I + 'return 14']
         elif t == 'pycallback':
             g = self.callee(fn, ('def',))
